@@ -407,3 +407,13 @@ Example ex_tv_roundtrip :
   exists dst d', convert_ttml_vtt ex_tv_src = Ok dst /\ read_vtt dst = Ok d' /\
                  vtt_to_plain d' = ptrunc 1000000 (ttml_to_plain ex_tv_doc).
 Proof. exact (ttml_to_vtt_styled_file _ _ ex_tv_read ex_tv_repr). Qed.
+Example ex_tv_all :
+  read_ttml_bytes2 ex_tv_src = Ok ex_tv_doc /\
+  convert_ttml_vtt ex_tv_src = Ok ex_tv_dst /\
+  repr_vdoc (tv_norm (conv_ttml_vtt ex_tv_doc)) (tv_style_order ex_tv_doc) (tv_region_order ex_tv_doc) /\
+  (exists d', read_vtt ex_tv_dst = Ok d' /\ vtt_to_plain d' = ptrunc 1000000 (ttml_to_plain ex_tv_doc)).
+Proof.
+  split; [exact ex_tv_read|]. split; [exact ex_tv_bytes|]. split; [exact ex_tv_repr|].
+  destruct ex_tv_roundtrip as (dst & d' & Hc & Hr & Hp). rewrite ex_tv_bytes in Hc. inversion Hc; subst dst.
+  exists d'. split; assumption.
+Qed.
